@@ -211,18 +211,79 @@ func txState(w *load.World, c *core.Collector, f *ssa.Function, newTx *ssa.Call)
 		}
 		return false
 	}
+	// viaEdge: block b (entered from pred, when b is the join itself) is only reachable through one of the edges
+	viaEdge := func(edges []ssax.Edge, pred, b *ssa.BasicBlock) bool {
+		for _, e := range edges {
+			if pred == e.From && e.From.Succs[e.Succ] == b {
+				return true
+			}
+			if ssax.OnlyViaEdge(e.From, e.Succ, pred) {
+				return true
+			}
+		}
+		return false
+	}
+	// flagVerdict decides whether the Commit argument says "failed" exactly when the storage transaction failed
+	var flagVerdict func(a ssa.Value, at *ssa.BasicBlock, depth int) (core.Verdict, string)
+	flagVerdict = func(a ssa.Value, at *ssa.BasicBlock, depth int) (core.Verdict, string) {
+		if flag, isConst := ssax.ConstBool(a); isConst {
+			switch {
+			case flag && !onlyVia(nonNil, at):
+				return core.Violation, "Commit(true) not confined to the path where the storage transaction returned an error"
+			case !flag && !onlyVia(isNil, at):
+				return core.Violation, "Commit(false) reachable although the storage transaction failed: the shared caches would keep partial state"
+			}
+			return core.OK, ""
+		}
+		switch x := a.(type) {
+		case *ssa.BinOp:
+			var other ssa.Value
+			switch {
+			case x.X == errV:
+				other = x.Y
+			case x.Y == errV:
+				other = x.X
+			}
+			if other != nil && ssax.IsNilConst(other) {
+				if x.Op == token.NEQ {
+					return core.OK, ""
+				}
+				if x.Op == token.EQL {
+					return core.Violation, "Commit is told the transaction failed exactly when it succeeded"
+				}
+			}
+		case *ssa.UnOp:
+			if x.Op == token.NOT {
+				if bo, ok := x.X.(*ssa.BinOp); ok && bo.Op == token.EQL && (bo.X == errV || bo.Y == errV) && (ssax.IsNilConst(bo.X) || ssax.IsNilConst(bo.Y)) {
+					return core.OK, ""
+				}
+			}
+		case *ssa.Phi:
+			if depth < 3 {
+				for i, e := range x.Edges {
+					pred := x.Block().Preds[i]
+					if flag, isConst := ssax.ConstBool(e); isConst {
+						if flag && !viaEdge(nonNil, pred, x.Block()) {
+							return core.Violation, "Commit can be told the transaction failed on a path where it succeeded"
+						}
+						if !flag && !viaEdge(isNil, pred, x.Block()) {
+							return core.Violation, "Commit can be told the transaction succeeded on a path where the storage transaction failed: the shared caches would keep partial state"
+						}
+						continue
+					}
+					if v, d := flagVerdict(e, pred, depth+1); v != core.OK {
+						return v, d
+					}
+				}
+				return core.OK, ""
+			}
+		}
+		return core.Undecided, "Commit argument is neither a constant confined to the matching branch nor a test of the storage transaction's error"
+	}
 	bad := false
 	for _, cm := range commits {
-		flag, isConst := ssax.ConstBool(cm.Call.Args[1])
-		switch {
-		case !isConst:
-			c.Add("TXSTATE", "commit-flag:"+key, core.Undecided, w.At(cm), "Commit argument is not a constant", props...)
-			bad = true
-		case flag && !onlyVia(nonNil, cm.Block()):
-			c.Add("TXSTATE", "commit-flag:"+key, core.Violation, w.At(cm), "Commit(true) not confined to the path where the storage transaction returned an error", props...)
-			bad = true
-		case !flag && !onlyVia(isNil, cm.Block()):
-			c.Add("TXSTATE", "commit-flag:"+key, core.Violation, w.At(cm), "Commit(false) reachable although the storage transaction failed: the shared caches would keep partial state", props...)
+		if v, d := flagVerdict(cm.Call.Args[1], cm.Block(), 0); v != core.OK {
+			c.Add("TXSTATE", "commit-flag:"+key, v, w.At(cm), d, props...)
 			bad = true
 		}
 	}
@@ -259,6 +320,39 @@ func txState(w *load.World, c *core.Collector, f *ssa.Function, newTx *ssa.Call)
 }
 
 // -------------------------------------------------------------------- SCRAP
+
+// mustPassFromEdge: every path that enters through edge e and reaches an instruction
+// accepted by stop has executed an instruction accepted by pred before it. It reports
+// false with the offending stop instruction otherwise; paths that never reach a stop
+// instruction do not count.
+func mustPassFromEdge(e ssax.Edge, pred, stop func(ssa.Instruction) bool) (bool, ssa.Instruction) {
+	seen := map[*ssa.BasicBlock]bool{}
+	var bad ssa.Instruction
+	var dfs func(b *ssa.BasicBlock) bool
+	dfs = func(b *ssa.BasicBlock) bool {
+		if seen[b] {
+			return true
+		}
+		seen[b] = true
+		for _, in := range b.Instrs {
+			if pred(in) {
+				return true
+			}
+			if stop(in) {
+				bad = in
+				return false
+			}
+		}
+		for _, s := range b.Succs {
+			if !dfs(s) {
+				return false
+			}
+		}
+		return true
+	}
+	ok := dfs(e.From.Succs[e.Succ])
+	return ok, bad
+}
 
 func Scrap(w *load.World, c *core.Collector) {
 	props := []string{"C11", "C07"}
@@ -357,12 +451,22 @@ func Scrap(w *load.World, c *core.Collector) {
 			nonNil, _ := ssax.NilTests(with, errV)
 			if sig.Params().Len() == 1 { // f(cacheToUse.item)
 				nCb++
+				isRet := func(in ssa.Instruction) bool { _, ok := in.(*ssa.Return); return ok }
 				for name, pred := range map[string]func(ssa.Instruction) bool{"scrapped=true": isScrapStore, "delete(sharedCaches)": isMapDelete, "failed.Store(true)": isFailedStore} {
 					v := core.OK
 					d := ""
-					if !regionHas(with, nonNil, pred) {
+					switch {
+					case !regionHas(with, nonNil, pred):
 						v = core.Violation
 						d = "on the path where the cache callback failed, " + name + " is missing: a cache touched by a failed transaction could be handed out again"
+					case name != "delete(sharedCaches)":
+						// marking the cache and the transaction must not depend on anything else
+						for _, e := range nonNil {
+							if ok, at := mustPassFromEdge(e, pred, isRet); !ok {
+								v = core.Violation
+								d = "after the cache callback failed, With can return at " + w.At(at) + " without " + name + ": the step is conditional"
+							}
+						}
 					}
 					c.Add("SCRAP", fmt.Sprintf("with:callback-error#%d:%s", nCb, name), v, w.At(in), d, props...)
 				}
@@ -422,12 +526,28 @@ func Scrap(w *load.World, c *core.Collector) {
 			_, isPhi := ifi.Cond.(*ssa.Phi)
 			if len(commit.Params) > 1 && o["param:"+commit.Params[1].Name()] && isPhi && loadsFailedFlag(commit) {
 				failedCond = ifi.Cond
+				isElemUnlock := func(in ssa.Instruction) bool {
+					call, ok := in.(*ssa.Call)
+					if !ok {
+						return false
+					}
+					g := call.Call.StaticCallee()
+					if g == nil || g.String() != "(*sync.RWMutex).Unlock" {
+						return false
+					}
+					return fieldOfAddr(call.Call.Args[0]) == "cache.sharedCacheElem.mu"
+				}
 				for name, pred := range map[string]func(ssa.Instruction) bool{"scrapped=true": isScrapStore, "delete(sharedCaches)": isMapDelete} {
 					v := core.OK
 					d := ""
 					if !regionHas(commit, []ssax.Edge{{From: b, Succ: 0}}, pred) {
 						v = core.Violation
 						d = "Commit of a failed transaction does not perform " + name
+					} else if name == "scrapped=true" {
+						if ok, at := mustPassFromEdge(ssax.Edge{From: b, Succ: 0}, pred, isElemUnlock); !ok {
+							v = core.Violation
+							d = "Commit of a failed transaction can release the cache's write lock at " + w.At(at) + " without marking it scrapped (the mark is conditional): a transaction already waiting for that lock would be handed the aborted state"
+						}
 					}
 					c.Add("SCRAP", "commit:failed:"+name, v, w.Position(commit.Pos()), d, props...)
 				}
